@@ -247,7 +247,7 @@ pub fn fail_v(prop: &str, f: crate::oracle::Fail) -> Violation {
 /// thread right before the scenario proper. Nothing it touches may leak into later operations
 /// (thread-local scratch buffers, pooled hashers, ...). `kind`: 1 = hashed read of a truncated
 /// copy of the file, 2 = slippi::write into a sink that runs out of space, 3 = peppi::write into
-/// a sink that runs out of space (biased to fail inside frames.arrow).
+/// a sink that runs out of space (biased to fail inside frames.arrow); 4-7: see the arms below.
 pub fn prelude(kind: i64, seed: u64, m: &Model, ctx: &mut Ctx) {
     use crate::pipeline::*;
     let mut rng = crate::prng::Rng::new(seed ^ 0x9E1DE);
@@ -314,6 +314,34 @@ pub fn prelude(kind: i64, seed: u64, m: &Model, ctx: &mut Ctx) {
                 ctx.probe("prelude: a different game was processed successfully before the scenario");
             }
         }
+        7 => {
+            // the scenario is the second or third job of this thread: a LARGER game of the SAME version
+            // went through every entry point first (hashed read, skip-frames read, both writers, both
+            // archive reads), once or twice. Anything kept between calls (scratch buffers that are only
+            // ever grown, cached layouts, counters, builders) is then longer/fuller than this scenario's
+            // game needs.
+            let size = if rng.chance(1, 4) { crate::gen::SizeClass::Medium } else { crate::gen::SizeClass::Small };
+            let cfg = crate::gen::GenCfg { size: Some(size), force_version: Some(m.version), ..Default::default() };
+            let other = crate::gen::gen_recorder(&mut rng, &cfg);
+            let om = crate::recorder::build(&other);
+            let slpp_ok = crate::layout::gte(m.v, (3, 7)) || !crate::layout::gte(m.v, (3, 0));
+            let reps = 1 + rng.below(2);
+            for _ in 0..reps {
+                let _ = read_slp(&om.bytes, &StreamSpec::default(), &[], OptsSpec { skip_frames: true, compute_hash: rng.chance(1, 2) });
+                if let Res::Ok(g) = read_slp(&om.bytes, &StreamSpec::default(), &[], OptsSpec { skip_frames: false, compute_hash: true }).res {
+                    let _ = write_slp(&g, &SinkSpec::default());
+                    if slpp_ok && !om.ports.is_empty() {
+                        let w = write_slpp(g, &SinkSpec::default(), Compression::None);
+                        if w.res.is_ok() {
+                            let _ = read_slpp(&w.data, &StreamSpec::default(), false);
+                            let _ = read_slpp(&w.data, &StreamSpec::default(), true);
+                        }
+                    }
+                    ctx.probe("prelude: a larger game of the same version went through every entry point before the scenario");
+                }
+            }
+            ctx.fault("prelude_larger_same_version", reps);
+        }
         6 => {
             // a DAMAGED copy of the file is read first (its text fields are broken in ways the decoders
             // must reject): a decoder kept across calls must not carry anything over
@@ -344,7 +372,13 @@ pub fn prelude(kind: i64, seed: u64, m: &Model, ctx: &mut Ctx) {
 /// Draw a history prelude for a scenario (0 = none).
 pub fn gen_prelude(rng: &mut crate::prng::Rng, kinds: &[i64], one_in: u64) -> i64 {
     if rng.chance(1, one_in) {
-        *rng.pick(kinds)
+        let k = *rng.pick(kinds);
+        // half of the "another game first" histories use a larger game of the same version (kind 7)
+        if k == 5 && rng.chance(1, 2) {
+            7
+        } else {
+            k
+        }
     } else {
         0
     }
